@@ -6,6 +6,7 @@
 import Driver.StackFam
 import Driver.SelFam
 import Driver.PlushyFam
+import Driver.PushFam
 open Driver
 
 def dispatch (stdin stdout : IO.FS.Stream) (line : String) : IO String := do
@@ -13,6 +14,7 @@ def dispatch (stdin stdout : IO.FS.Stream) (line : String) : IO String := do
   | "stack" :: args => pure (StackFam.handle args)
   | "sel" :: args => SelFam.handle stdin stdout args
   | "plushy" :: args => pure (PlushyFam.handle args)
+  | "push" :: args => pure (PushFam.handle args)
   | "ping" :: _ => pure "pong"
   | _ => pure "bad-family"
 
